@@ -3,6 +3,7 @@ import LemoModel.Evm
 import LemoModel.EvmTable
 import LemoModel.ModExp
 import LemoModel.EvmGas
+import LemoModel.JumpAnalysis
 namespace Driver.C16
 open LemoModel LemoModel.Evm Driver
 
@@ -10,6 +11,8 @@ structure St where
   m : Machine := Machine.init
   /-- words of memory of every live frame, innermost first (parallel to `m.frames`) -/
   mem : List Nat := []
+  /-- the persistent `destinations` map of the `jdc` ops -/
+  cache : JumpAnalysis.Cache := []
 
 def T : Table := EvmTable.table
 
@@ -125,8 +128,90 @@ def resName : Res → String
   | .reverted => "revert"
   | .failed => "err"
 
+/-! hex helpers of the `jd` / `gd` / `m*` ops (`-` = empty) -/
+
+def hexDigit? (c : Char) : Option Nat :=
+  if '0' ≤ c ∧ c ≤ '9' then some (c.toNat - '0'.toNat)
+  else if 'a' ≤ c ∧ c ≤ 'f' then some (c.toNat - 'a'.toNat + 10)
+  else none
+
+def hexPairs? : List Char → Option (List UInt8)
+  | [] => some []
+  | a :: b :: rest =>
+    match hexDigit? a, hexDigit? b, hexPairs? rest with
+    | some x, some y, some r => some (UInt8.ofNat (16 * x + y) :: r)
+    | _, _, _ => none
+  | [_] => none
+
+def hex? (s : String) : Option (List UInt8) :=
+  if s == "-" then some [] else hexPairs? s.toList
+
+def hexChar (n : Nat) : Char :=
+  if n < 10 then Char.ofNat ('0'.toNat + n) else Char.ofNat ('a'.toNat + n - 10)
+
+def toHex (l : List UInt8) : String :=
+  if l.isEmpty then "-"
+  else String.ofList (l.flatMap (fun b => [hexChar (b.toNat / 16), hexChar (b.toNat % 16)]))
+
+def hexOrPanic : Option (List UInt8) → String
+  | some l => toHex l
+  | none => "panic"
+
 def step (s : St) (w : List String) : St × String :=
   match w with
+  | ["jd", code, dests] =>
+    match hex? code, (dests.splitOn ",").mapM (·.toNat?) with
+    | some code, some dests =>
+      let first := match JumpAnalysis.codeBitmap code with
+        | some bits => s!"len={JumpAnalysis.allocLen code} bits={toHex bits}"
+        | none => "len=panic bits=panic"
+      let hs := dests.map (fun d => match JumpAnalysis.validJumpdest code d with
+        | some true => "1"
+        | some false => "0"
+        | none => "p")
+      (s, first ++ " has=" ++ ",".intercalate hs)
+    | _, _ => (s, "bad-op")
+  | ["jdc-reset"] => ({ s with cache := [] }, "ok")
+  | ["jdc", key, code, dest] =>
+    match key.toNat?, hex? code, dest.toNat? with
+    | some key, some code, some dest =>
+      let (r, cache') := match JumpAnalysis.has s.cache key code dest with
+        | some (b, d') => (b01 b, d')
+        | none => ("p", s.cache)
+      let cached := match cache'.lookup key with
+        | some m => toString m.length
+        | none => "-"
+      ({ s with cache := cache' }, s!"has={r} n={cache'.length} cached={cached}")
+    | _, _, _ => (s, "bad-op")
+  | ["gd", data, start, size] =>
+    match hex? data, start.toNat?, size.toNat? with
+    | some data, some start, some size => (s, hexOrPanic (JumpAnalysis.getData data start size))
+    | _, _, _ => (s, "bad-op")
+  | ["gdb", data, start, size] =>
+    match hex? data, start.toNat?, size.toNat? with
+    | some data, some start, some size => (s, hexOrPanic (JumpAnalysis.getDataBig data start size))
+    | _, _, _ => (s, "bad-op")
+  | ["mset", buf, len, off, size, value] =>
+    match hex? buf, len.toNat?, off.toNat?, size.toNat?, hex? value with
+    | some buf, some len, some off, some size, some value =>
+      (s, match JumpAnalysis.memSet ⟨buf, len⟩ off size value with
+          | some m => s!"len={m.len} buf={toHex m.buf}"
+          | none => "panic")
+    | _, _, _, _, _ => (s, "bad-op")
+  | ["mget", buf, len, off, size] =>
+    match hex? buf, len.toNat?, off.toNat?, size.toNat? with
+    | some buf, some len, some off, some size => (s, hexOrPanic (JumpAnalysis.memGet ⟨buf, len⟩ off size))
+    | _, _, _, _ => (s, "bad-op")
+  | ["mptr", buf, len, off, size] =>
+    match hex? buf, len.toNat?, off.toNat?, size.toNat? with
+    | some buf, some len, some off, some size => (s, hexOrPanic (JumpAnalysis.memGetPtr ⟨buf, len⟩ off size))
+    | _, _, _, _ => (s, "bad-op")
+  | ["mres", buf, len, size] =>
+    match hex? buf, len.toNat?, size.toNat? with
+    | some buf, some len, some size =>
+      let m := JumpAnalysis.memResize ⟨buf, len⟩ size
+      (s, s!"len={m.len} vis={toHex m.visible}")
+    | _, _, _ => (s, "bad-op")
   | ["param", name, v] =>
     match paramOf T.params name, v.toNat? with
     | some a, some b => (s, if a == b then "ok" else "table-mismatch")
@@ -155,7 +240,7 @@ def step (s : St) (w : List String) : St × String :=
       match callee? callee paddr preq pok [] with
       | some cal =>
         let m := beginAsset T gas early az wt cal
-        ({ m := m, mem := m.frames.map (fun _ => 0) }, "ok")
+        ({ s with m := m, mem := m.frames.map (fun _ => 0) }, "ok")
       | none => (s, "bad-op")
     | _, _, _, _, _, _, _ => (s, "bad-op")
   | ["begin", entry, gas, value, canT, callee, paddr, preq, pok, pw] =>
@@ -164,7 +249,7 @@ def step (s : St) (w : List String) : St × String :=
       match callee? callee paddr preq pok pw with
       | some cal =>
         let m := begin T k gas value canT cal
-        ({ m := m, mem := m.frames.map (fun _ => 0) }, "ok")
+        ({ s with m := m, mem := m.frames.map (fun _ => 0) }, "ok")
       | none => (s, "bad-op")
     | _, _, _, _, _, _, _, _ => (s, "bad-op")
   | ["s", op, sl, execErr, wr, retLen, canT, callee, paddr, preq, pok, pw, bits, stk] =>
@@ -209,7 +294,7 @@ def step (s : St) (w : List String) : St × String :=
           let mem' := if lenA = lenB + 1 then 0 :: newWords :: s.mem.tail
                       else if lenA = lenB then newWords :: s.mem.tail
                       else s.mem.tail
-          ({ m := m', mem := mem' }, head ++ v)
+          ({ s with m := m', mem := mem' }, head ++ v)
         | some _, [] => (s, "no-frame")
         | none, _ => (s, "bad-op")
       | _, _, _, _ => (s, "bad-op")
@@ -234,8 +319,8 @@ def step (s : St) (w : List String) : St × String :=
   | ["end"] =>
     match s.m.result, s.m.frames with
     | some (r, g), [] =>
-      ({ m := Machine.init, mem := [] }, s!"{resName r} {g} {s.m.journal.length} {showRle (s.m.journal.map (entryType T.params))}")
-    | _, _ => ({ m := Machine.init }, s!"not-finished depth={s.m.frames.length}")
+      ({ s with m := Machine.init, mem := [] }, s!"{resName r} {g} {s.m.journal.length} {showRle (s.m.journal.map (entryType T.params))}")
+    | _, _ => ({ s with m := Machine.init, mem := [] }, s!"not-finished depth={s.m.frames.length}")
   | _ => (s, "bad-op")
 
 end Driver.C16
